@@ -100,6 +100,8 @@ func zzH_C06_pool_select_upgrade_cleanup(t *zzT) {
 	}
 	// checked last (a failed assertion ends the path) so that the obligations above are also decided on
 	// the paths where the selection contains a duplicate
-	t.Assert(dupFree, "selection lists no commit twice")
+	if t.Param("beyond", 0) == 1 { // not demanded by the C06 statement (a duplicate in one gossip message is tolerated by Upgrade)
+		t.Assert(dupFree, "selection lists no commit twice")
+	}
 	t.Reach("end")
 }
